@@ -311,6 +311,50 @@ pub mod simstd {
     };
 
     pub mod process {
+        /// Stand-in for std::process::ExitCode whose value the simulator can read.
+        #[derive(Clone, Copy, Debug, PartialEq, Eq)]
+        pub struct ExitCode(pub u8);
+        impl ExitCode {
+            pub const SUCCESS: ExitCode = ExitCode(0);
+            pub const FAILURE: ExitCode = ExitCode(1);
+        }
+        impl From<u8> for ExitCode {
+            fn from(c: u8) -> Self {
+                ExitCode(c)
+            }
+        }
+        /// What `main` may return (mirrors std::process::Termination).
+        pub trait Termination {
+            fn report(self) -> i32;
+        }
+        impl Termination for () {
+            fn report(self) -> i32 {
+                0
+            }
+        }
+        impl Termination for ExitCode {
+            fn report(self) -> i32 {
+                self.0 as i32
+            }
+        }
+        impl<T: Termination, E: ::std::fmt::Debug> Termination for Result<T, E> {
+            fn report(self) -> i32 {
+                match self {
+                    Ok(v) => v.report(),
+                    Err(e) => {
+                        crate::world::with_world(|w| w.stderr.extend_from_slice(format!("Error: {:?}\n", e).as_bytes()));
+                        1
+                    }
+                }
+            }
+        }
+        /// Called by the harness with whatever the real `main` returned.
+        pub fn finish_main<T: Termination>(r: T) {
+            let code = r.report();
+            if code != 0 {
+                exit(code)
+            }
+        }
         pub fn exit(code: i32) -> ! {
             crate::world::with_world(|w| w.logline(format!("exit {}", code)));
             crate::world::halt(crate::world::Halt::Exit(code))
@@ -670,6 +714,19 @@ pub mod simstd {
             })
         }
 
+        pub fn create_dir_all<P: AsRef<::std::path::Path>>(_path: P) -> io::Result<()> {
+            Ok(()) // directories are implicit in the simulated file system
+        }
+        pub fn create_dir<P: AsRef<::std::path::Path>>(_path: P) -> io::Result<()> {
+            Ok(())
+        }
+        pub fn canonicalize<P: AsRef<::std::path::Path>>(path: P) -> io::Result<::std::path::PathBuf> {
+            Ok(path.as_ref().to_path_buf())
+        }
+        pub fn try_exists<P: AsRef<::std::path::Path>>(path: P) -> io::Result<bool> {
+            exists(path)
+        }
+
         pub fn copy<P: AsRef<::std::path::Path>, Q: AsRef<::std::path::Path>>(from: P, to: Q) -> io::Result<u64> {
             let data = read(from)?;
             let n = data.len() as u64;
@@ -692,6 +749,30 @@ pub mod simstd {
         pub struct StdinLock;
         pub struct Stdout;
         pub struct Stderr;
+
+        /// Stand-in for std::io::IsTerminal
+        pub trait IsTerminal {
+            fn is_terminal(&self) -> bool;
+        }
+        impl IsTerminal for Stdin {
+            fn is_terminal(&self) -> bool {
+                with_world(|w| {
+                    let t = w.stdin_tty;
+                    w.logline(format!("isatty <stdin> -> {}", t));
+                    t
+                })
+            }
+        }
+        impl IsTerminal for Stdout {
+            fn is_terminal(&self) -> bool {
+                false
+            }
+        }
+        impl IsTerminal for Stderr {
+            fn is_terminal(&self) -> bool {
+                false
+            }
+        }
 
         pub fn stdin() -> Stdin {
             Stdin
